@@ -725,7 +725,12 @@ func e2eStream(o *Out, rng *rand.Rand, n int) {
 				for k := rng.Intn(4); k > 0; k-- {
 					uri += "&info_hash=" + url.QueryEscape(string(ihs[rng.Intn(len(ihs))]))
 				}
-				reqs = append(reqs, eReq{T: "hscr", URI: hx([]byte(uri)), Remote: remotes[rng.Intn(len(remotes))]})
+				rem := remotes[rng.Intn(len(remotes))]
+				if rng.Intn(8) == 0 {
+					// a remote address the server cannot split or parse (net/http hands RemoteAddr through as it is)
+					rem = []string{"garbage", "notanip:80", "[::1", "1.2.3.4", ":80", "[fe80::1%eth0]:80", ""}[rng.Intn(7)]
+				}
+				reqs = append(reqs, eReq{T: "hscr", URI: hx([]byte(uri)), Remote: rem})
 			case r < 92: // malformed HTTP
 				bad := []string{"/announce?info_hash=%zz", "/announce", "/announce?info_hash=short&peer_id=x", "/announce?port=1", "/scrape", "/announce?info_hash=" + url.QueryEscape(string(ih)) + "&peer_id=" + url.QueryEscape(string(p.id)) + "&port=0&left=1&downloaded=0&uploaded=0",
 					"/announce?info_hash=" + url.QueryEscape(string(ih)) + "&peer_id=%ff%fe&port=1&left=1&downloaded=0&uploaded=0", "/announce?%ff=%fe&info_hash=" + url.QueryEscape(string(ih))}
